@@ -15,6 +15,23 @@ var frameworkNames = []string{"Client", "Server", "Handler", "Route", "Option", 
 
 type M = map[string]any
 
+// frameworkPool: the hand-written list plus what the probe package declares.
+func frameworkPool() []string {
+	seen := map[string]bool{}
+	out := append([]string{}, frameworkNames...)
+	for _, n := range out {
+		seen[n] = true
+	}
+	var extra []string
+	for n := range frameworkIdents {
+		if !seen[n] {
+			extra = append(extra, n)
+		}
+	}
+	sort.Strings(extra)
+	return append(out, extra...)
+}
+
 // ---------------------------------------------------------------- pool
 
 type poolClass struct {
@@ -28,20 +45,21 @@ var long300 = strings.Repeat("a", 300)
 
 func pool() []poolClass {
 	return []poolClass{
-		{Name: "double-quote", Text: true, Strs: []string{`"`, `a"b`, `"quoted"`, `a\"b`}},
-		{Name: "backquote", Text: true, Strs: []string{"`", "a`b", "`x`", "a`+\"b"}},
+		{Name: "double-quote", Text: true, Strs: []string{`"`, `a"b`, `"quoted"`, `x"y"z`}},
+		{Name: "backquote", Text: true, Strs: []string{"`", "a`b", "`x`", "x`y`z"}},
 		{Name: "backslash", Text: true, Strs: []string{`\`, `a\b`, `a\`, `\n`, `\x`, `\u00e9`, `C:\dir`}},
-		{Name: "newline", Text: true, Strs: []string{"\n", "a\nb", "a\r\nb", "a\n", "\nfunc init() { panic(1) }\n"}},
+		{Name: "newline", Text: true, Strs: []string{"\n", "a\nb", "a\r\nb", "a\n", "\nfunc init() { os.Exit(3) }\n"}},
 		{Name: "tab", Text: true, Strs: []string{"\t", "a\tb"}},
 		{Name: "control-char", Text: true, Strs: []string{"\x00", "a\x00b", "\ufeff", "a\ufeffb", "\r", "a\rb", "\u2028", "\x7f", "\x1b[0m", "\u0085"}},
-		{Name: "comment-close", Text: true, Strs: []string{"*/", "a*/b", "*/ panic(1) /*"}},
+		{Name: "comment-close", Text: true, Strs: []string{"*/", "a*/b", "*/ func init() { os.Exit(3) } /*"}},
 		{Name: "comment-open", Text: true, Strs: []string{"/*", "//", "a//b", "a/*b"}},
 		{Name: "percent", Text: true, Strs: []string{"%", "%s", "%d%%", "a%20b", "%!", "100%", "%v%v%v"}},
-		{Name: "template-braces", Text: true, Strs: []string{"{{", "}}", "{{.}}", `{{ template "x" }}`, "{{/*", "a{{b}}c"}},
+		{Name: "template-braces", Text: true, Strs: []string{"{{", "}}", "{{.}}", `{{ template x }}`, "{{- 1 -}}", "a{{b}}c"}},
+		{Name: "mixed-hazards", Text: true, Strs: []string{"a`+\"b", `a\"b`, `{{ template "x" }}`, "{{/*", "\";\n}\nfunc init() { os.Exit(3) }\n//", "`\n\"*/\\", "%s\"{{`"}},
 		{Name: "dollar", Text: true, Strs: []string{"$", "$ref", "${x}", "a$b", "$1"}},
 		{Name: "go-keyword", Strs: []string{"type", "func", "range", "map", "chan", "select", "default", "package", "import", "interface", "go", "defer", "var", "const", "struct", "switch", "case", "fallthrough", "goto", "if", "else", "for", "return", "break", "continue"}},
 		{Name: "predeclared", Strs: []string{"string", "int", "error", "nil", "true", "false", "any", "len", "make", "new", "panic", "print", "iota", "bool", "byte", "float64", "append", "cap", "close", "copy", "delete", "recover", "rune", "uintptr", "String", "Int", "Bool"}},
-		{Name: "framework-identifier", Strs: frameworkNames},
+		{Name: "framework-identifier", Strs: frameworkPool()},
 		{Name: "imported-package-name", Strs: []string{"http", "errors", "json", "jx", "uri", "conv", "validate", "ht", "fmt", "url", "time", "context", "otelogen", "metric", "trace", "semconv", "middleware", "ogenerrors", "ogenregex", "big", "math", "uuid", "netip", "bytes", "io", "mime", "multipart", "strings", "sort", "bits", "codes", "attribute", "net", "otel", "testing", "require"}},
 		{Name: "template-local", Strs: []string{"ctx", "request", "params", "response", "err", "s", "e", "d", "r", "w", "args", "c", "u", "q", "h", "req", "resp", "elem", "span", "stage", "cfg", "t", "ok", "v", "val", "k", "i", "m", "b", "res", "client", "server", "self", "this", "cookie", "name", "key", "value", "typ"}},
 		{Name: "derived-name", Strs: []string{"GetItemParams", "GetItemOK", "GetItemRes", "GetItemOKHeaders", "GetItemNotFound", "MakeOtherReq", "MakeOtherRes", "MakeOtherOK", "OptBaseItem", "NilBaseItem", "OptNilBaseItem", "BaseItemKind", "BaseItemLevel", "BaseItemNested", "BaseSumType", "OptBaseItemKind", "BaseItemMapped", "BaseItemPat", "GetItemFilter", "GetItemDeep", "SendFormReq", "UploadReq", "UploadReqForm", "ItemCreatedOK", "KeyHeader", "KeyQuery", "BaseFaultStatusCode", "ServerProd", "Operation", "GetItemOperation", "R1abc"}},
@@ -308,20 +326,20 @@ func baseDoc(f *filler) M {
 	svDefault := f.s("server-variable-default", "eu")
 
 	itemProps := M{
-		f.s("property-name", "name"): str(M{"description": f.s("property-description", "The name.")}),
-		"defs":                       str(M{"default": f.s("string-default", "dflt")}),
-		"pat":                        str(M{"pattern": f.s("pattern", "^[a-z]+$")}),
-		"ex":                         str(M{"example": f.s("example-string", "sample")}),
-		"kind":                       str(M{"enum": []any{f.s("enum-string", "alpha"), f.s2("enum-string", "beta"), "zz"}}),
-		"level":                      M{"type": "integer", "enum": []any{f.n("enum-int", "1"), f.n2("enum-int", "2"), 3}},
-		"ratio":                      M{"type": "number", "enum": []any{f.n("enum-number", "1.5"), f.n2("enum-number", "2.5")}},
-		"fmt":                        str(M{"format": f.s("format", "uuid")}),
-		"tagged":                     str(M{"x-oapi-codegen-extra-tags": M{f.s("extra-tag-key", "gorm"): f.s("extra-tag-value", "primaryKey")}}),
-		"when":                       str(M{"format": "date-time", "x-ogen-time-format": f.s("time-format", "2006-01-02")}),
-		"mapped":                     M{"type": "object", "additionalProperties": str()},
-		"patmap":                     M{"type": "object", "patternProperties": M{f.s("pattern-property-key", "^x-"): str()}},
-		"count":                      M{"type": "integer", "default": f.n("int-default", "10"), "minimum": f.n("int-bound", "0")},
-		"score":                      M{"type": "number", "default": f.n("number-default", "0.5"), "multipleOf": f.n("multiple-of", "0.25")},
+		f.s("property-name", "name"):          str(M{"description": f.s("property-description", "The name.")}),
+		"defs":                                str(M{"default": f.s("string-default", "dflt")}),
+		"pat":                                 str(M{"pattern": f.s("pattern", "^[a-z]+$")}),
+		"ex":                                  str(M{"example": f.s("example-string", "sample")}),
+		"kind":                                str(M{"enum": []any{f.s("enum-string", "alpha"), f.s2("enum-string", "beta"), "zz"}}),
+		"level":                               M{"type": "integer", "enum": []any{f.n("enum-int", "1"), f.n2("enum-int", "2"), 3}},
+		"ratio":                               M{"type": "number", "enum": []any{f.n("enum-number", "1.5"), f.n2("enum-number", "2.5")}},
+		"fmt":                                 str(M{"format": f.s("format", "uuid")}),
+		"tagged":                              str(M{"x-oapi-codegen-extra-tags": M{f.s("extra-tag-key", "gorm"): f.s("extra-tag-value", "primaryKey")}}),
+		"when":                                str(M{"format": "date-time", "x-ogen-time-format": f.s("time-format", "2006-01-02")}),
+		"mapped":                              M{"type": "object", "additionalProperties": str()},
+		"patmap":                              M{"type": "object", "patternProperties": M{f.s("pattern-property-key", "^x-"): str()}},
+		"count":                               M{"type": "integer", "default": f.n("int-default", "10"), "minimum": f.n("int-bound", "0")},
+		"score":                               M{"type": "number", "default": f.n("number-default", "0.5"), "multipleOf": f.n("multiple-of", "0.25")},
 		f.s("nested-property-name", "nested"): M{"type": "object", "properties": M{"a": str()}},
 	}
 	p2 := f.s2("property-name", "amount")
@@ -408,7 +426,7 @@ func baseDoc(f *filler) M {
 		"/others": M{"post": M{
 			"operationId": f.s2("operation-id", "makeOther"), "tags": []any{tag2}, "x-ogen-operation-group": f.s2("operation-group", "Stuff"),
 			"requestBody": M{"required": true, "content": M{f.s("request-content-type", "application/json"): M{"schema": M{"$ref": refTo("schemas", other)}}}},
-			"responses": M{"200": M{"description": "ok", "content": M{f.s("response-content-type", "application/json"): M{"schema": M{"$ref": refTo("schemas", other)}}}}, "default": faultResp},
+			"responses":   M{"200": M{"description": "ok", "content": M{f.s("response-content-type", "application/json"): M{"schema": M{"$ref": refTo("schemas", other)}}}}, "default": faultResp},
 		}},
 		"/form": M{"post": M{"operationId": "sendForm",
 			"requestBody": M{"required": true, "content": M{"application/x-www-form-urlencoded": M{"schema": objOf(f.s("form-property-name", "first"), f.s2("form-property-name", "second"))}}},
@@ -596,18 +614,31 @@ func hostileJobs(r *ev.Run) ([]*Job, map[string]any, error) {
 	if r.Thorough() {
 		chosen = perm
 	} else {
-		// three cells per place first, then fill up
-		per := map[string]int{}
+		// per place: the double-quote cell (what a hand-quoted literal breaks on
+		// first), one PRNG cell among the other syntax-breaking classes, one PRNG
+		// cell among the rest; then fill up with PRNG cells
+		breaking := map[string]bool{"backslash": true, "newline": true, "control-char": true, "backquote": true, "mixed-hazards": true, "comment-close": true, "template-braces": true}
+		got := map[string][3]bool{}
 		taken := map[int]bool{}
 		for _, i := range perm {
-			if per[cs[i].Place.Name] < 3 {
-				per[cs[i].Place.Name]++
+			c := cs[i]
+			g := got[c.Place.Name]
+			k := 2
+			switch {
+			case c.Class == "double-quote":
+				k = 0
+			case breaking[c.Class]:
+				k = 1
+			}
+			if !g[k] {
+				g[k] = true
+				got[c.Place.Name] = g
 				taken[i] = true
 				chosen = append(chosen, i)
 			}
 		}
 		for _, i := range perm {
-			if len(chosen) >= 300 {
+			if len(chosen) >= 270 {
 				break
 			}
 			if !taken[i] {
@@ -621,6 +652,10 @@ func hostileJobs(r *ev.Run) ([]*Job, map[string]any, error) {
 		c := cs[ci]
 		n := perCell
 		if r.Thorough() && c.Class == "framework-identifier" && (c.Place.Name == "schema-name" || c.Place.Name == "operation-id" || c.Place.Name == "response-component-name" || c.Place.Name == "security-scheme-name" || c.Place.Name == "x-ogen-name") {
+			n = len(c.Strs)
+		}
+		if r.Thorough() && (c.Class == "double-quote" || c.Class == "backslash" || c.Class == "newline" || c.Class == "control-char" || c.Class == "mixed-hazards" || c.Class == "backquote") {
+			// the classes that break a literal or a comment: every string
 			n = len(c.Strs)
 		}
 		if n > len(c.Strs) {
